@@ -41,6 +41,10 @@ STRUCTS = {
                              "current_entry_offset": ("curEntryOff", "usize"), "current_restart_ix": ("curRestartIx", "usize"),
                              "key": ("key", "bytes"), "val_offset": ("valOffset", "usize")}},
 }
+STRUCTS["BlockBuilder"] = {"lean": "BlockBuilder", "cmp_param": True,
+                           "fields": {"buffer": ("buffer", "bytes"), "restarts": ("restarts", "natlist"), "last_key": ("lastKey", "bytes"),
+                                      "restart_counter": ("restartCounter", "usize"), "counter": ("counter", "usize")},
+                           "nested": {("opt", "block_restart_interval"): ("restartInterval", "usize")}}
 _BI = r"impl\s+(?:SSIterator\s+for\s+)?BlockIter"
 TARGETS += [
     ("block.rs", _BI, "number_restarts", "bi_number_restarts", {}, "BlockIter"),
@@ -51,6 +55,12 @@ TARGETS += [
     ("block.rs", _BI, "assemble_key", "bi_assemble_key", {}, "BlockIter"),
     ("block.rs", _BI, "seek_to_restart_point", "bi_seek_to_restart_point", {}, "BlockIter"),
     ("block.rs", _BI, "advance", "bi_advance", {}, "BlockIter"),
+    ("block.rs", _BI, "seek_to_last", "bi_seek_to_last", {}, "BlockIter"),
+    ("block.rs", _BI, "prev", "bi_prev", {}, "BlockIter"),
+    ("block_builder.rs", r"impl\s+BlockBuilder", "entries", "bb_entries", {}, "BlockBuilder"),
+    ("block_builder.rs", r"impl\s+BlockBuilder", "size_estimate", "bb_size_estimate", {}, "BlockBuilder"),
+    ("block_builder.rs", r"impl\s+BlockBuilder", "add", "bb_add", {}, "BlockBuilder"),
+    ("block_builder.rs", r"impl\s+BlockBuilder", "finish", "bb_finish", {}, "BlockBuilder"),
 ]
 
 WIDTH = {"u8": 8, "u32": 32, "u64": 64, "usize": 64}
@@ -195,7 +205,9 @@ class P:
             self.expect("<")
             t = self.ty()
             self.expect(">")
-            return "bytes" if t == "u8" else ("list", t)
+            return "bytes" if t == "u8" else ("natlist" if t in INTS else ("list", t))
+        if v == "BlockContents":
+            return "bytes"
         if v in INTS or v == "bool":
             return v
         if v == "Ordering":
@@ -218,6 +230,11 @@ class P:
                     continue
                 raise Untranslatable("pattern parameter")
             if self.eat("self"):
+                self.selfkind = "mut"
+                self.eat(",")
+                continue
+            if self.at("mut") and self.peek(1)[1] == "self":
+                self.next(); self.next()
                 self.selfkind = "mut"
                 self.eat(",")
                 continue
@@ -269,8 +286,13 @@ class P:
             return ("let", name, ty, init, mut)
         if v == "while":
             self.next()
+            if self.at("let"):
+                raise Untranslatable("while let")
             c = self.expr(nostruct=True)
             return ("while", c, self.block())
+        if v == "loop":
+            self.next()
+            return ("while", ("bool", True), self.block())
         if v == "for":
             self.next()
             var = self.next()[1]
@@ -487,6 +509,9 @@ class P:
                 self.eat(",")
             self.expect("]")
             return ("array", items)
+        if k == "str":
+            self.next()
+            return ("str", v)
         if k == "id" or v == "self":
             self.next()
             path = [v]
@@ -509,7 +534,7 @@ def lean_ty(t):
         return " × ".join(par(lean_ty(x)) if isinstance(x, tuple) else lean_ty(x) for x in t[1])
     if isinstance(t, str) and t.startswith("struct:"):
         return STRUCTS[t[7:]]["lean"]
-    return {"bool": "Bool", "bytes": "Bytes", "ordering": "Ordering", "unit": "Unit", "policy": "Bytes → Bytes → Bool"}[t]
+    return {"bool": "Bool", "bytes": "Bytes", "ordering": "Ordering", "unit": "Unit", "policy": "Bytes → Bytes → Bool", "natlist": "List Nat"}[t]
 
 
 class Ctx:
@@ -520,6 +545,15 @@ class Ctx:
         self.on_return_w = on_return_w or on_return
 
 
+def norm_writer(e):
+    """`X.write_varint(a).expect("..")` / `X.write_fixedint(a).expect("..")` / `.unwrap()` -> a mutation of X"""
+    if isinstance(e, tuple) and e[0] == "mcall" and e[2] in ("expect", "unwrap") and isinstance(e[1], tuple) and e[1][0] == "mcall" \
+            and e[1][2] in ("write_varint", "write_fixedint") and len(e[1][3]) == 1:
+        return ("mcall", e[1][1], e[1][2], e[1][3])
+    return e
+
+
+MUTATORS = ("push", "extend_from_slice", "resize", "clear", "truncate", "write_varint", "write_fixedint", "reserve")
 MUT_SELF_METHODS = set()   # names of translated &mut self methods (filled while translating, callee before caller)
 
 
@@ -539,7 +573,8 @@ def assigned_vars(stmts, acc=None):
         if e[0] == "mcall" and e[1] == ("var", "self") and e[2] in MUT_SELF_METHODS:
             if "self" not in declared and "self" not in acc:
                 acc.append("self")
-        if e[0] == "mcall" and e[2] in ("push", "extend_from_slice", "resize", "clear", "truncate"):
+        e = norm_writer(e)
+        if e[0] == "mcall" and e[2] in MUTATORS:
             r = lv_root(e[1])
             if r and r not in declared and r not in acc:
                 acc.append(r)
@@ -602,6 +637,7 @@ class Emitter:
         self.n = 0
         self.sites = 0
         self.uses_fuel = False
+        self.uses_cmp = False
 
     def fresh(self, p):
         self.n += 1
@@ -685,6 +721,9 @@ class Emitter:
                 return str(2 ** WIDTH[p[0]] - 1), p[0]
             raise Untranslatable("path %s" % "::".join(p))
         if k == "field":
+            if self.struct and e[1][0] == "field" and e[1][1] == ("var", "self") and (e[1][2], e[2]) in STRUCTS[self.struct].get("nested", {}):
+                lf, t = STRUCTS[self.struct]["nested"][(e[1][2], e[2])]
+                return "self_.%s" % lf, t
             if e[1] == ("var", "self") and self.struct and e[2] in STRUCTS[self.struct]["fields"]:
                 lf, t = STRUCTS[self.struct]["fields"][e[2]]
                 return "self_.%s" % lf, t
@@ -721,6 +760,10 @@ class Emitter:
                 return "(← Rt.sliceChk %s %s %s %s)" % (b, par(lo), par(hi), self.site("slice")), "bytes"
             i, it = self.expr(ix, env, "usize")
             return "(← Rt.idx %s %s %s)" % (b, par(i), self.site("index")), "u8"
+        if k == "natidx":
+            a, _ = self.expr(e[1], env)
+            i, _ = self.expr(e[2], env, "usize")
+            return "(← Rt.idxN %s %s %s)" % (a, par(i), self.site("index")), "u32"
         if k == "tuple":
             wants = want[1] if isinstance(want, tuple) and want[0] == "tuple" and len(want[1]) == len(e[1]) else [None] * len(e[1])
             items = [self.expr(x, env, w) for x, w in zip(e[1], wants)]
@@ -882,6 +925,11 @@ class Emitter:
             if at_ != "bytes":
                 raise Untranslatable("decode_var of a non-byte slice")
             return "(← Rt.unwrapO (decodeVarint %s) %s)" % (par(a), self.site("unwrap")), ("tuple", ("usize", "usize"))
+        if self.struct and STRUCTS[self.struct].get("cmp_param") and recv == ("field", ("field", ("var", "self"), "opt"), "cmp") and m == "cmp" and len(args) == 2:
+            a, _ = self.expr(args[0], env)
+            b, _ = self.expr(args[1], env)
+            self.uses_cmp = True
+            return "(cmp.cmp %s %s)" % (par(a), par(b)), "ordering"
         if recv == ("field", ("var", "self"), "policy") and self.selffields.get("policy") == "policy" and m == "key_may_match" and len(args) == 2:
             a, at_ = self.expr(args[0], env)
             b, bt = self.expr(args[1], env)
@@ -907,6 +955,12 @@ class Emitter:
             if m == "is_empty" and not args:
                 return "(%s).isEmpty" % r, "bool"
             raise Untranslatable("method .%s on bytes" % m)
+        if rt == "natlist":
+            if m == "len" and not args:
+                return "(%s).length" % r, "usize"
+            if m in ("iter", "clone") and not args:
+                return r, "natlist"
+            raise Untranslatable("method .%s on a Vec of integers" % m)
         if rt in INTS:
             w = WIDTH[rt]
             if m in ("wrapping_add", "wrapping_sub", "wrapping_mul") and len(args) == 1:
@@ -975,6 +1029,8 @@ class Emitter:
             _, name, ty, init, mut = s
             env2 = dict(env)
             nm = self.lname(name, env)
+            if init is None and ty is None:
+                ty = self.first_assigned_type(name, rest, env)
             if init is None:
                 if ty is None:
                     raise Untranslatable("let without type or initialiser")
@@ -1028,7 +1084,8 @@ class Emitter:
                     return "let (self_, r_) ← %s\n%s" % (act, ctx.on_return("r_"))
                 bind = "let self_ ← %s" % act if rt == "unit" else "let (self_, _) ← %s" % act
                 return bind + "\n" + self.stmts(rest, env, ctx)
-            if e[0] == "mcall" and e[2] in ("push", "extend_from_slice", "resize", "clear", "truncate"):
+            e = norm_writer(e)
+            if e[0] == "mcall" and e[2] in MUTATORS:
                 return self.mutate(e, env) + "\n" + self.stmts(rest, env, ctx)
             raise Untranslatable("expression statement %s" % e[0])
         if k == "while":
@@ -1036,6 +1093,26 @@ class Emitter:
         if k == "for":
             return self.for_loop(s, rest, env, ctx)
         raise Untranslatable("statement %s" % k)
+
+    def first_assigned_type(self, name, stmts, env):
+        """type of the first `name = rhs` found in the statements (declaration without type and initialiser)"""
+        for st in stmts:
+            if st[0] == "assign" and st[1] == "=" and st[2] == ("var", name):
+                if self.is_mut_call(st[3]):
+                    return self.known[st[3][2]][2]
+                return self.peek_type(st[3], env)
+            subs = []
+            if st[0] == "while":
+                subs = [st[2]]
+            elif st[0] == "for":
+                subs = [st[3]]
+            elif st[0] == "expr" and isinstance(st[1], tuple) and st[1][0] == "if":
+                subs = [st[1][2], st[1][3] or []]
+            for b in subs:
+                t = self.first_assigned_type(name, b, env)
+                if t is not None:
+                    return t
+        return None
 
     def lvalue_var(self, e, env):
         if e[0] != "var" or e[1] not in env:
@@ -1068,6 +1145,11 @@ class Emitter:
             return "let %s : Bytes := (← Rt.setIdx %s %s %s %s)" % (nm, nm, par(i), par(val), self.site("index assign"))
         v = self.lvalue_var(lhs, env)
         nm, t = env[v]
+        if op == "=" and self.is_mut_call(rhs):
+            act, rt = self.mut_call(rhs, env)
+            if rt != t:
+                raise Untranslatable("assignment of %s to %s" % (rt, t))
+            return "let (self_, %s) ← %s" % (nm, act)
         if op == "=":
             c, t2 = self.expr(rhs, env, t)
         else:
@@ -1081,19 +1163,36 @@ class Emitter:
             if not self.mutself:
                 raise Untranslatable("mutation of self.%s in a &self method" % e[1][2])
             lf, t = STRUCTS[self.struct]["fields"][e[1][2]]
-            if t != "bytes":
+            if t not in ("bytes", "natlist"):
                 raise Untranslatable("mutation of %s" % t)
             # translate as a mutation of a temporary, then store it back
             tmp = self.fresh("fld")
             env2 = dict(env)
-            env2[tmp] = (tmp, "bytes")
+            env2[tmp] = (tmp, t)
             inner = self.mutate(("mcall", ("var", tmp), e[2], e[3]), env2)
-            return "let %s : Bytes := self_.%s\n%s\nlet self_ : %s := { self_ with %s := %s }" % (tmp, lf, inner, STRUCTS[self.struct]["lean"], lf, tmp)
+            return "let %s : %s := self_.%s\n%s\nlet self_ : %s := { self_ with %s := %s }" % (tmp, lean_ty(t), lf, inner, STRUCTS[self.struct]["lean"], lf, tmp)
         v = self.lvalue_var(e[1], env)
         nm, t = env[v]
+        m, args = e[2], e[3]
+        if m == "reserve":
+            return "let _ : Unit := ()"
+        if t == "natlist":
+            if m == "push":
+                c, ct = self.expr(args[0], env, "u32")
+                return "let %s : List Nat := %s ++ [%s]" % (nm, nm, c)
+            raise Untranslatable("mutation .%s of a Vec of integers" % m)
         if t != "bytes":
             raise Untranslatable("mutation of %s" % t)
-        m, args = e[2], e[3]
+        if m == "write_varint":
+            c, ct = self.expr(args[0], env, "usize")
+            if ct not in ("usize", "u64"):
+                raise Untranslatable("write_varint of %s" % ct)
+            return "let %s : Bytes := %s ++ encodeVarint %s" % (nm, nm, par(c))
+        if m == "write_fixedint":
+            c, ct = self.expr(args[0], env, "u32")
+            if ct != "u32":
+                raise Untranslatable("write_fixedint of %s" % ct)
+            return "let %s : Bytes := %s ++ encodeFixed32 %s" % (nm, nm, par(c))
         if m == "push":
             c, _ = self.expr(args[0], env, "u8")
             return "let %s : Bytes := %s ++ [Rt.byteLit %s]" % (nm, nm, par(c))
@@ -1190,6 +1289,14 @@ class Emitter:
             return "let %s : Nat := %s\nlet %s : Nat := %s\n%s" % (hi, hi_c, i, lo_c, code)
         # for b in <bytes>.iter()
         xs_c, xs_t = self.expr(it, env)
+        if xs_t == "natlist":
+            xs, j = self.fresh("xs"), self.fresh("j")
+            env2[xs] = (xs, "natlist")
+            env2[j] = (j, "usize")
+            cond = ("bin", "<", ("var", j), ("mcall", ("var", xs), "len", []))
+            body2 = [("let", var, None, ("natidx", ("var", xs), ("var", j)), False)] + body
+            code = self.loop_counter(cond, body2, j, rest, env2, ctx)
+            return "let %s : List Nat := %s\nlet %s : Nat := 0\n%s" % (xs, xs_c, j, code)
         if xs_t != "bytes":
             raise Untranslatable("for over %s" % xs_t)
         xs, j = self.fresh("xs"), self.fresh("j")
@@ -1275,7 +1382,7 @@ def translate(src_dir):
                 raise Untranslatable("function end without value")
             ctx = Ctx(at_end, lambda code, em=em: "pure %s" % par(em.wrap_ret(code)), None, None, lambda code: "pure %s" % par(code))
             code = em.stmts(body, env, ctx)
-            sig = (" (self_ : %s)" % STRUCTS[struct]["lean"] if struct else "") + \
+            sig = (" (cmp : Cmp)" if em.uses_cmp else "") + (" (self_ : %s)" % STRUCTS[struct]["lean"] if struct else "") + \
                 "".join(" (self_%s : %s)" % (f, lean_ty(ft)) for f, ft in fields.items()) + \
                 "".join(" (%s : %s)" % (env[pn][0], lean_ty(pt)) for pn, pt in params)
             fuel = em.uses_fuel
@@ -1291,7 +1398,7 @@ def translate(src_dir):
         except (OSError, ValueError, IndexError, KeyError, TypeError) as ex:
             out.append("-- UNTRANSLATABLE %s (%s::%s): %s %s\n" % (lean, fname, rust, type(ex).__name__, ex))
             report.append((lean, "UNTRANSLATABLE: %s %s" % (type(ex).__name__, ex)))
-    head = ("import SstModel.Model.RustRt\nimport SstModel.Model.Block\n/- GENERATED by tools/gen_funcs.py from /repo/src — do not edit. -/\n"
+    head = ("import SstModel.Model.RustRt\nimport SstModel.Model.Block\nimport SstModel.Model.BlockBuilder\n/- GENERATED by tools/gen_funcs.py from /repo/src — do not edit. -/\n"
             "set_option linter.unusedVariables false\nnamespace Sst.Gen\nopen Sst\n\n")
     return head + "\n".join(out) + "\nend Sst.Gen\n", report
 
